@@ -112,6 +112,18 @@ class Typer:
                             self.var.setdefault(n.target.elts[1].id, set()).update(ec)
 
     def _assign(self, t: ast.AST, v: ast.AST) -> None:
+        if isinstance(t, (ast.Tuple, ast.List)) and not isinstance(v, (ast.Tuple, ast.List)):
+            # a, b = xs  /  (only,) = xs : every target is an element of the sequence
+            ec = self.elem_classes(v)
+            if ec:
+                for e in t.elts:
+                    if isinstance(e, ast.Name):
+                        self.var.setdefault(e.id, set()).update(ec)
+            return
+        if isinstance(t, (ast.Tuple, ast.List)) and isinstance(v, (ast.Tuple, ast.List)) and len(t.elts) == len(v.elts):
+            for e, w in zip(t.elts, v.elts):
+                self._assign(e, w)
+            return
         if not isinstance(t, ast.Name):
             return
         c = self.classes(v)
